@@ -203,17 +203,13 @@ func isForwardRangeIndex(idx ssa.Value) bool {
 			return false
 		}
 		// the explicit loop runs to the full length: `i < len(x)` / `i < n` with n a length call, not an adjusted bound
-		if iff, ok := p.Block().Instrs[len(p.Block().Instrs)-1].(*ssa.If); ok {
-			if b, ok := iff.Cond.(*ssa.BinOp); ok && b.Op == token.LSS && b.X == ssa.Value(p) {
-				if call, ok := b.Y.(*ssa.Call); ok {
-					if bi, ok := call.Call.Value.(*ssa.Builtin); ok && bi.Name() == "len" {
-						return true
-					}
-					switch calleeFullName(call) {
-					case "(reflect.Value).Len", "(reflect.Value).NumField", "(reflect.Type).NumField":
-						return true
-					}
-				}
+		if call, ok := headerUpperBound(p.Block(), p).(*ssa.Call); ok {
+			if bi, ok := call.Call.Value.(*ssa.Builtin); ok && bi.Name() == "len" {
+				return true
+			}
+			switch calleeFullName(call) {
+			case "(reflect.Value).Len", "(reflect.Value).NumField", "(reflect.Type).NumField":
+				return true
 			}
 		}
 		return false
